@@ -388,6 +388,19 @@ def run_shard(spec):
                 it = rng.choice(cands)
                 it["default"] = rng.choice(gen.BAD[it["datatype"]])
                 counters["schema:unconvertible-default"] += 1
+        clash_base = None
+        if rng.random() < 0.2:
+            # a type whose keyed defaults differ in letter case only (fine under its case-sensitive
+            # key type); a component will try to derive a type with a case-insensitive key type
+            # from it -- that import is refused, and the refusal must leave the base as it was
+            clash_base = "tcl"
+            ast["types"].append({"name": "tcl", "keytype": "identifier", "datatype": None, "implements": None, "extends": None,
+                                 "items": [{"kind": rng.choice(["key", "multikey"]), "name": "+", "attribute": "clmap", "required": False,
+                                            "handler": None, "datatype": "string",
+                                            "defaults": [["Spool", "a"], ["other", "o"], ["spool", "b"], ["last", "z"]]}]})
+            ast["items"].append({"kind": "multisection", "name": "*", "attribute": "clslot", "required": False,
+                                 "handler": None, "type": "tcl"})
+            counters["schema:base-whose-defaults-clash-under-another-key-type"] += 1
         overlapping = rng.random() < 0.3
         if overlapping:
             # keys inside section types whose (identity) conversion re-enters ZConfig: they are
@@ -420,6 +433,9 @@ def run_shard(spec):
                 newkt = "identifier" if all(k.replace("_", "a").isalnum() and not k[0].isdigit() for k in keys) else None
                 ptypes.append({"name": "p%dx" % (p + 1), "keytype": newkt, "datatype": None,
                                "implements": rng.choice(ast["abstract"]), "extends": b["name"], "items": []})
+            if clash_base and p == 0:
+                ptypes.append({"name": "p1clash", "keytype": "basic-key", "datatype": None,
+                               "implements": rng.choice(ast["abstract"]), "extends": clash_base, "items": []})
             packages[pname] = {"abstract": [], "types": ptypes, "imports": []}
         if len(packages) == 2 and rng.random() < 0.4:
             # the second component imports the first: '%import' of the second brings both
